@@ -548,12 +548,6 @@ Definition zscript_stmts (command : string) (start : N) (nd : needs) (a : alltab
       ++ (if n_subwords nd then zlevel_stmts "subword_transitions_level_" (a_csub a) else [])
       ++ [SEnd] ++ [SRegister [append "_" command; command]]).
 
-Lemma scansE_app0 sh cmd t1 t2 s : scansE sh cmd t1 [] -> scansE sh cmd t2 s -> scansE sh cmd (append t1 t2) s.
-Proof. intros H1 H2. apply (scansE_app sh cmd t1 [] t2 s H1 H2). Qed.
-
-Lemma scansE_if0 sh cmd (b : bool) t : scansE sh cmd t [] -> scansE sh cmd (if b then t else EmptyString) [].
-Proof. destruct b; [auto | intros _; apply scansE_nil]. Qed.
-
 Lemma fmtln_unit t env : fmtln t env = render env (t ++ seg_nl).
 Proof. unfold fmtln. rewrite render_app. cbn [render seg_nl]. rewrite QuoteRT.append_nil_r. reflexivity. Qed.
 
@@ -620,8 +614,9 @@ Proof.
                           else Ok []) = Ok gs /\ scansZ command groups_part gs).
   { destruct (n_subwords nd).
     - apply obind_ok' in Hgroups. destruct Hgroups as [texts [Ht Hs]].
-      destruct (groups_scansG Zsh command _ _ _ _ _ _
-                  (zwrapper_scans command Hc) (zshape_fn_scans command Hc) (zshape_wrapper_scans command Hc) a _ _ Ht)
+      destruct (groups_scansG Zsh command _ _ _ _ _ _ (fun _ => True)
+                  (fun id t _ => zwrapper_scans command Hc id t) (zshape_fn_scans command Hc)
+                  (fun id sid t _ => zshape_wrapper_scans command Hc id sid t) a _ _ (fun _ _ _ => I) Ht)
         as [stss [Hss Hn]].
       unfold zgroup_stmts. rewrite Hss. cbn [obind]. eexists. split; [reflexivity|].
       assert (E : sconcat texts = groups_part) by congruence. rewrite <- E. exact Hn.
